@@ -16,7 +16,7 @@ Code it is anchored in: {', '.join(p['anchors']['files'])}
 Task: make ONE realistic change to the project's non-test source that BREAKS this property while
 (1) the project still compiles, and (2) the project's existing tests still pass. The change should look like a plausible refactoring slip or 'optimisation' by a maintainer, and it must need something specific to manifest — a particular interleaving, a fault at a particular point, a multi-step sequence of operations, an unusual input, a boundary value, or two cooperating sites that each look fine alone — not something ordinary use would expose at once. Do not add new exported API, do not touch test files of the project, keep the change small (a few lines, at most two sites).
 
-Then write a demonstration: a Go test file (a new file, e.g. {wt}/<pkg>/seed_demo_test.go in the appropriate package, may use unexported identifiers) or small program that FAILS with your change and PASSES without it. Verify both directions yourself (use `git stash` or `git diff > /tmp/seed_{pid}.diff; git checkout -- <files>` to test the unchanged tree, then re-apply).
+Then write a demonstration: a Go test file (a new file, e.g. {wt}/<pkg>/seed_demo_test.go in the appropriate package, may use unexported identifiers) or small program that FAILS with your change and PASSES without it. Verify both directions yourself (never use `git stash` - the stash is shared by all worktrees; use `git diff > /tmp/seed_{pid}.diff; git checkout -- <files>` to test the unchanged tree, then re-apply).
 
 How to build and test offline (do exactly this; never run go with -mod=mod inside the worktree):
   cd {wt} && mkdir -p /tmp/seed_{pid}_mod && cp go.mod go.sum /tmp/seed_{pid}_mod/
